@@ -87,9 +87,13 @@ class C15(Oracle):
                 return False         # never a program value, or let go after the last collection
             # still reachable through something the program holds (a column of a held table, an
             # element of a held vector of vectors)?
-            for x in w.live_entries():
+            holders = [x.obj for x in w.live_entries() if "row" not in x.tags]
+            # objects let go *after* the last collection may still be alive legitimately (parked in a
+            # cycle, not yet collected) and so may whatever they hold
+            holders += [r() for (r, st) in self.dropped if st >= self.last_collect and r() is not None]
+            for h in holders:
                 try:
-                    inner = x.obj.cols() if x.is_table else (list(x.obj) if "row" not in x.tags else [])
+                    inner = h.cols() if isinstance(h, S.Table) else list(h)
                 except Exception as ex:
                     inner = []
                     ex = None
